@@ -339,7 +339,9 @@ pub fn run(tier: Tier) -> i32 {
         // quick tier: the entries from LATE on (unknown / look-alike key ids, stale signature)
         // only in lists of length <= 3
         let standard = f.entries.len() == ENTRIES.len();
-        let ls: Vec<Vec<usize>> = lists(f.entries.len(), *maxlen).into_iter().filter(|l| !standard || tier.thorough() || l.len() < 4 || l.iter().all(|e| *e < LATE)).collect();
+        // the entries from LATE on: in lists of length <= 3 (quick) / <= 4 (thorough)
+        let late_max = if tier.thorough() { 4 } else { 3 };
+        let ls: Vec<Vec<usize>> = lists(f.entries.len(), *maxlen).into_iter().filter(|l| !standard || l.len() <= late_max || l.iter().all(|e| *e < LATE)).collect();
         bounds.push(format!("{}: lists <= {maxlen} ({} lists)", f.name, ls.len()));
         let accs = util::par_fold(&ls, Acc::new, |acc, i, list| {
             acc.states += 1;
